@@ -153,6 +153,9 @@ pub struct Exact {
     /// majorant used in the error model of v
     pub bmaj: f64,
     pub cond_v: f64,
+    /// exact cancellation ratio of V = A - B: (A + |B|)/|V| (V itself is perfectly conditioned
+    /// with respect to the Feynman parameters; only the subtraction loses digits)
+    pub cancel_ratio: f64,
     /// L^-1 u : [loop][component]
     pub shift: Vec<Vec<Q>>,
     pub inv_frob: f64,
@@ -206,6 +209,7 @@ impl Exact {
         let bmaj = (1.0 + kappa) * inv_frob * u2;
         let vf = qf(&v.abs());
         let cond_v = (qf(&a) + bmaj) / vf;
+        let cancel_ratio = (qf(&a) + qf(&b.abs())) / vf;
         let mut shift = vec![vec![Q::zero(); d]; nl];
         for i in 0..nl {
             for k in 0..d {
@@ -214,7 +218,7 @@ impl Exact {
                 }
             }
         }
-        Some(Exact { x, l, det, inv, kappa, uvec, uvec_abs, a, b, v, bmaj, cond_v, shift, inv_frob })
+        Some(Exact { x, l, det, inv, kappa, uvec, uvec_abs, a, b, v, bmaj, cond_v, cancel_ratio, shift, inv_frob })
     }
     /// relative error bound for the code's u (determinant)
     pub fn bound_u(&self, k_safety: f64) -> f64 {
